@@ -22,6 +22,7 @@ def run(c):
     r3(c)
     r4(c)
     r5(c)
+    r6(c)
 
 
 def r1(c):
@@ -285,3 +286,69 @@ def r5(c):
         c.undecided("C10.R5", "-", "abstract-row engine", "abstract-row containment (E9) not built yet")
         return
     c14.r2_containment(c, rid="C10.R5", include_examples=True)
+
+
+def r6(c):
+    """the block context managers of TreeGenerator decide under which block path a generator's lines are filed"""
+    repo = c.repo
+    BASE = "annet.generators.base"
+    c.rule("C10.R6", "TreeGenerator's context managers: each generator-based context manager yields exactly once on every path; block() pushes the block row before and pops it after "
+                     "its yield; block_if / multiblock_if open their block(s) exactly when the condition holds — whether passed in or defaulted — and the default condition "
+                     "excludes exactly the absent-value markers (block_if: None and '' among the tokens; multiblock_if: None among the blocks), not every falsy token")
+    m = repo.module(BASE)
+    cls = repo.cls(BASE, "TreeGenerator")
+    cms = []
+    for st in cls.body:
+        if isinstance(st, ast.FunctionDef) and any("contextmanager" in norm(d) for d in st.decorator_list) and any(isinstance(x, ast.Yield) for x in walk_no_nested(st)):
+            cms.append(repo.func(BASE, f"TreeGenerator.{st.name}", canon=False))
+    c.floor("C10.R6", "context managers", len(cms), 4)
+    for fn in cms:
+        c.count("functions")
+        gm = GuardMap(fn)
+        ys = [n for n in walk_no_nested(fn) if isinstance(n, ast.Yield)]
+        fs = [gm.formula(y) for y in ys]
+        once = all(not G.satisfiable(G.And(fs[i], fs[j])) for i in range(len(fs)) for j in range(i + 1, len(fs)))
+        ok = once and G.equivalent(G.Or(*fs), G.T) and not any(gm.in_loop(y) for y in ys)
+        c.check("C10.R6", ok, repo.loc(m, fn), f"TreeGenerator.{fn.name}/one-yield", f"yields under {[G.show(f) for f in fs]}: not exactly one yield on every path (contextlib raises "
+                "'generator didn't yield' / 'didn't stop', or the body runs outside the block)", key_text="one-yield")
+    byname = {f.name: f for f in cms}
+    # block(): push ... yield ... pop
+    blk = byname.get("block")
+    if blk is None:
+        raise AnchorError("TreeGenerator.block not found")
+    y = [n for n in walk_no_nested(blk) if isinstance(n, ast.Yield)][0]
+    pushes = [x for x in calls_in(blk) if isinstance(x.func, ast.Attribute) and x.func.attr == "append" and norm(x.func.value) in ("self._block_path", "self._indents")]
+    pops = [x for x in calls_in(blk) if isinstance(x.func, ast.Attribute) and x.func.attr == "pop" and norm(x.func.value) in ("self._block_path", "self._indents")]
+    emits = [x for x in calls_in(blk) if norm(x.func) == "self._append_text"]
+    ok = {norm(x.func.value) for x in pushes} == {"self._block_path", "self._indents"} == {norm(x.func.value) for x in pops} and len(emits) == 1 \
+        and all(x.lineno < y.lineno for x in pushes + emits) and all(x.lineno > y.lineno for x in pops) \
+        and emits[0].lineno < [x for x in pushes if norm(x.func.value) == "self._indents"][0].lineno
+    c.check("C10.R6", ok, repo.loc(m, blk), "TreeGenerator.block/push-pop", "block() does not emit its row, push path and indent before the body and pop both after it", key_text="push-pop")
+    for name, seq, markers in (("block_if", "tokens", ("None", "''")), ("multiblock_if", "blocks", ("None",))):
+        fn = byname.get(name)
+        if fn is None:
+            raise AnchorError(f"TreeGenerator.{name} not found")
+        gm = GuardMap(fn)
+        seqname = fn.args.vararg.arg if fn.args.vararg else seq
+        cond = [a.arg for a in fn.args.kwonlyargs]
+        if len(cond) != 1:
+            raise AnchorError(f"TreeGenerator.{name}: the condition keyword not found")
+        cv = cond[0]
+        defaults = [n for n in walk_no_nested(fn) if isinstance(n, ast.Assign) and norm(n.targets[0]) == cv]
+        if len(defaults) != 1:
+            raise AnchorError(f"TreeGenerator.{name}: the default of `{cv}` not found")
+        ren = lambda s_: s_.replace('"', "'")
+        f = G.formula(defaults[0].value, G.GuardEnv(rename=ren))
+        spec = G.And(*[G.Not(G.Atom(f"{mk} in {seqname}")) for mk in markers])
+        c.check("C10.R6", G.equivalent(f, spec), repo.loc(m, defaults[0]), f"TreeGenerator.{name}/default-condition", f"the default condition is {G.show(f)}; expected {G.show(spec)}: a falsy but "
+                "valid token (0, 0.0, False) would silently drop the block and file the body's lines one level up", key_text="default-condition")
+        g = gm.formula(defaults[0])
+        c.check("C10.R6", len(G.atoms(g)) == 1 and "Default" in list(G.atoms(g))[0] and G.satisfiable(g), repo.loc(m, defaults[0]), f"TreeGenerator.{name}/default-only-when-absent",
+                f"`{cv}` is overwritten under {G.show(g)}; expected only when it was not passed", key_text="default-guard")
+        opens = [n for n in walk_no_nested(fn) if isinstance(n, ast.With) and any(isinstance(x, ast.Call) and norm(x.func) == "self.block" for it in n.items for x in ast.walk(it.context_expr))]
+        if len(opens) != 1:
+            raise AnchorError(f"TreeGenerator.{name}: `with self.block(...)` not found")
+        og = gm.formula(opens[0])
+        want = G.Atom(cv) if name == "block_if" else G.And(G.Atom(cv), G.Atom(seqname))
+        c.check("C10.R6", G.equivalent(og, want), repo.loc(m, opens[0]), f"TreeGenerator.{name}/opens-iff-condition", f"the block is opened under {G.show(og)}; expected {G.show(want)}: with "
+                "an explicitly passed condition the blocks are not opened and the body's lines are filed under the enclosing block", key_text="opens-iff")
